@@ -75,6 +75,33 @@ func (*Suite).RegisterCase
   ensures len(s.Cases) == old(len(s.Cases)) + 1 && elem(s.Cases, len(s.Cases) - 1) == testCase
   ensures forall k int :: 0 <= k && k < old(len(s.Cases)) ==> elem(s.Cases, k) == old(elem(s.Cases, k))
 
+// ---- path filters (--path file[:line]) ------------------------------------------------------
+// a location satisfies the filter when the glob matches its file and either no line is given
+// or the line lies inside the location's span
+spec fn glob(p *PathFilter, loc *position.Location) bool = doublestar.MatchUnvalidated(p.pattern, loc.FilePath)
+spec fn inSpan(line int, loc *position.Location) bool = loc.StartPos.Line <= line && line <= loc.EndPos.Line
+
+func (*PathFilter).LocationMatches
+  props C34
+  requires p != nil && loc != nil && loc.Span != nil && loc.StartPos != nil && loc.EndPos != nil
+  assigns nothing
+  ensures ret <==> (glob(p, loc) && (p.line < 0 || inSpan(p.line, loc)))
+
+// a suite is rejected iff the file does not match or the line lies outside its span;
+// naming the suite's own first line selects everything inside it (FULL)
+func (*PathFilter).SuiteMatches
+  props C34
+  requires p != nil && suite != nil && (suite.Location != nil ==> suite.Location.Span != nil && suite.Location.StartPos != nil && suite.Location.EndPos != nil && suite.Location.StartPos.Line <= suite.Location.EndPos.Line)
+  assigns nothing
+  ensures noloc: suite.Location == nil ==> ret == SUITE_MATCH_TRUE
+  ensures rejected: suite.Location != nil ==> ((ret == SUITE_MATCH_FALSE) <==> !(glob(p, suite.Location) && (p.line < 0 || inSpan(p.line, suite.Location))))
+  ensures full: suite.Location != nil ==> ((ret == SUITE_MATCH_FULL) <==> (glob(p, suite.Location) && p.line >= 0 && p.line == suite.Location.StartPos.Line && inSpan(p.line, suite.Location)))
+
+func (*RegexFilter).SuiteMatches
+  props C34
+  assigns nothing
+  ensures ret == SUITE_MATCH_TRUE
+
 // ---- status lattice: RUNNING < SUCCESS < FAILED < ERROR (the enum's numeric order differs) ----
 spec fn rank(s TestStatus) int = ite(s == TEST_ERROR, 3, ite(s == TEST_FAILED, 2, ite(s == TEST_SUCCESS, 1, 0)))
 spec fn counted(s TestStatus) bool = s == TEST_ERROR || s == TEST_FAILED || s == TEST_SUCCESS
